@@ -20,8 +20,8 @@ var StandardFunctions = map[string]KeyBuilderFunction{
 	"sumi":  arithmaticHelperi(func(a, b int) int { return a + b }),
 	"subi":  arithmaticHelperi(func(a, b int) int { return a - b }),
 	"multi": arithmaticHelperi(func(a, b int) int { return a * b }),
-	"divi":  arithmaticHelperi(func(a, b int) int { return a / b }),
-	"modi":  arithmaticHelperi(func(a, b int) int { return a % b }),
+	"divi":  arithmaticHelperiEx(func(a, b int) int { return a / b }, true),
+	"modi":  arithmaticHelperiEx(func(a, b int) int { return a % b }, true),
 	"maxi": arithmaticHelperi(func(a, b int) int {
 		if a > b {
 			return a
